@@ -633,8 +633,8 @@ theorem linkJob_inv {s : St} (j : Nat) (h : Inv s) (hj : j ∉ s.queue) : Inv (l
     have hju : j ∉ (updateNext (setTimer OPFUEL) s j).1.queue := fun hm => hj (u2 j hm)
     exact ⟨u1.toInv hju, hju⟩
 
-theorem createJob_inv {s : St} (j : Nat) (key : Option Nat) (spec : JobSpec) (ef tf : List Nat) (h : Inv s) :
-    Inv (createJob s j key spec ef tf).1 := by
+theorem createJob_inv {s : St} (j : Nat) (key : Option Nat) (spec : JobSpec) (ef tf : List Nat) (tff : Nat) (h : Inv s) :
+    Inv (createJob s j key spec ef tf tff).1 := by
   unfold createJob
   split
   · exact h
@@ -716,7 +716,7 @@ theorem step_inv (s : St) (op : Op) (h : Inv s) : Inv (step s op).1 := by
   unfold step
   simp only []
   cases op with
-  | create j key spec ef tf => exact createJob_inv j key spec ef tf h
+  | create j key spec ef tf tff => exact createJob_inv j key spec ef tf tff h
   | cancel j => exact (jobFinish_spec _ hT j h).1
   | pause j =>
     simp only []
